@@ -27,7 +27,7 @@ ANCHORS = ["SVG.parse", "SVG._use_structure_parse", "Matrix.parse", "Color.parse
            "Group.property_by_values", "Transformable.property_by_values", "GraphicObject.property_by_values", "_Polyshape.property_by_values", "Path.parse"]
 REQUIRED_MONITORS = ["no-exception", "siblings-unaffected", "no-foreign-shapes", "returns-tree", "steps"]
 
-KINDS = ["d", "transform", "colour", "length", "points", "viewbox", "par", "number", "href", "cycle"]
+KINDS = ["d", "transform", "colour", "length", "points", "viewbox", "par", "number", "href", "cycle", "misc"]
 
 BAD = {
     "transform": ["translate(", "translate()", "translate(1", "scale(a)", "rotate(1 2)", "rotate(1,2,3,4)", "matrix(1 2 3)", "matrix(1,2,3,4,5)", "matrix()", "skewX()",
@@ -43,6 +43,13 @@ BAD = {
     "par": ["garbage", "xMidYMid foo", "", "none none", "slice", "xmidymid", "meet xMidYMid", "xMinYMin slice extra", " "],
     "number": ["abc", "-1", "", "1e400", "10%", "NaN", "1,5", "..", "2 3"],
     "href": ["#nope", "", "#", "nope", "##", "#e999999", "url(#e1)", " #e2"],
+    "style": ["fill:", ":red", ";;;", "fill:red:blue", "fill:rgb(1,2", "garbage", "stroke-width:abc", "transform:rotate(", "fill:#12;stroke:#gg", "stroke-width:1e400", "fill-opacity:1e400;fill:red",
+              "display:;fill:red", "fill:url(#nothing)", "color:;fill:currentColor", "stroke:rgb(1,2,3,4,5);stroke-width:-1", "x:abc;width:abc", "fill : red ; ; stroke"],
+    "display": ["", "nope", "inline none", " none", "NONE "],
+    "class": ["", " ", "a  b", ".", "#", "a\tb"],
+    "vector-effect": ["", "non-scaling-stroke garbage", "none", "1"],
+    "font-size": ["abc", "", "-1", "1e400", "12 px"],
+    "clip-path": ["url(#nothing)", "url(", "", "none", "#e2"],
 }
 GEOM = {"rect": ["x", "y", "width", "height", "rx", "ry"], "circle": ["cx", "cy", "r"], "ellipse": ["cx", "cy", "rx", "ry"], "line": ["x1", "y1", "x2", "y2"],
         "svg": ["x", "y", "width", "height"], "use": ["x", "y", "width", "height"], "text": ["x", "y", "dx", "dy", "font-size"], "tspan": ["x", "y", "dx"],
@@ -173,6 +180,10 @@ def gen_case(R, index, tier):
                 added.append({"parent": a["id"], "node": {"tag": "use", "id": base + "a", "geom": {}, "children": [], "attrs": {}, "href": base + "b", "xlink": False}})
                 added.append({"parent": b["id"], "node": {"tag": "use", "id": base + "b", "geom": {}, "children": [], "attrs": {}, "href": base + "a", "xlink": False}})
             return None
+        if kind == "misc":
+            n = R.choice(nodes)
+            a = R.choice(["style", "style", "style", "display", "class", "vector-effect", "font-size", "clip-path"])
+            return {"id": n["id"], "attr": a, "text": R.choice(BAD[a])}
         if kind == "colour":
             n = R.choice(nodes)
             return {"id": n["id"], "attr": R.choice(["fill", "stroke", "color"]), "text": R.choice(BAD["colour"])}
